@@ -377,3 +377,10 @@ Theorem C02_env_listing_shows_current : forall st out,
   (forall kv k v, In kv (env_list st) -> split_kv kv = Some (k, v) -> In k (map fst out)).
 Proof. exact env_listing_shows_current. Qed.
 Print Assumptions C02_env_listing_shows_current.
+
+(* the executable boolean form of the history statements (extracted; the model driver accumulates
+   the history of every script and the runner asks it for every history script) is true on every
+   history, initial variables, directory and name *)
+Theorem C02_history_holds : forall h vars cd0 k, history_holds h vars cd0 k = true.
+Proof. exact history_holds_true. Qed.
+Print Assumptions C02_history_holds.
